@@ -194,3 +194,26 @@ func TestC11WitnessReindexDup(t *testing.T) {
 		Quick: 12, Thorough: 100, Gen: genC11ReindexDup, Run: runC11,
 	}, "reindex-duplicates-order-entry", "resurrected")
 }
+
+// --- index-visible-before-built --------------------------------------------------------
+
+func genC11HalfBuilt(t *rapid.T) C11Scenario {
+	n := rapid.IntRange(6, 12).Draw(t, "n")
+	s := C11Scenario{Mem: rapid.Bool().Draw(t, "mem"), Cold: true, ColdIndexForced: true, Recs: witnessRecs(t, n, "ready")}
+	f := func() *Filt { return excludeAnchor(nil) }
+	s.Claimers = []C11Claimer{
+		{Kind: "sm", Index: "key", Desc: true, HowMany: 1, Filter: f()},                // builds the KEY index (first use)
+		{Kind: "sm", Index: "key", Desc: true, HowMany: 0, Filter: f(), DelayUs: 3000}, // walks it while the DESC half is filled but not sorted
+	}
+	s.Plan = []vsched.Action{{Site: "beacon:SortByKeyDesc:Lock:e380a5", Hit: 1, Kind: "pause", Until: "claimer-1-done", MaxWaitMs: 800}}
+	return s
+}
+
+func TestC11WitnessHalfBuiltIndex(t *testing.T) {
+	pbt.Witness(t, pbt.Spec[C11Scenario]{
+		ID: "C11", Facet: "witness-index-visible-before-built",
+		Rule: "6–12 records, no index built yet; a ShiftMatching over KEY/DESC starts the first build (buildBeacon marks the DESC half initialised, fills it in map order) and is paused before SortByKeyDesc; " +
+			"a second ShiftMatching(KEY, DESC, all) takes buildBeacon's unlocked fast path (both halves 'initialised') and walks the unsorted slice",
+		Quick: 12, Thorough: 100, Gen: genC11HalfBuilt, Run: runC11,
+	}, "index-visible-before-built", "order")
+}
